@@ -1,19 +1,18 @@
 /-
 WCore bounds checker: mirror of lang/check/bounds.go (`bcheckExpr`, `bcheckExpr1`,
 `bcheckExprUnaryOp`, `bcheckExprBinaryOp`/`bcheckExprBinaryOp1`,
-`bcheckExprXBinaryMinus`, `bcheckExprAssociativeOp`, `bcheckTypeExpr1`) and of
+`bcheckExprXBinaryMinus`, `bcheckExprAssociativeOp`, `bcheckTypeExpr1`,
+`bcheckExprOther` for IDOpenBracket on an array: the index obligations) and of
 lang/check/assert.go (`otherHandSide`, `facts.refine`) for the scalar fragment,
 over the C06 interval model.  `none` = the checker rejects ("check: …" error).
 
 The rules are those of the REPAIRED checker (fixes/C01-*.patch): `~mod<<` yields
 the whole type range when the shift can wrap around.
 -/
-import WuffsVerif.Model.WCore.Expr
+import WuffsVerif.Model.WCore.Prove
 
 namespace WuffsVerif.WCore
 open WuffsVerif.Interval
-
-def mkIR (lo hi : Int) : IR := ⟨some lo, some hi⟩
 
 /-- `numTypeBounds[id]` as an interval -/
 def numIR (b : Base) : Option IR :=
@@ -245,6 +244,26 @@ def bcheck (fs : List Expr) : Bool → Expr → Option IR
         match binBounds fs op l lb r rb with
         | none => none
         | some nb => if raw then some nb else finish fs (.assoc op pre l r) nb
+  -- `bcheckExprOther`, IDOpenBracket, array-typed operand: the index is checked, then
+  -- `0 <= i` (proveReasonRequirement) and `i < length` (…ForRHSLength) must be
+  -- provable; the bounds are those of the element type
+  | _, .index a len ety i =>
+    match bcheck fs false i with
+    | none => none
+    | some ib =>
+      if !proveCore fs .le (.const 0) (mkIR 0 0) i ib then none
+      else if !proveLen fs .lt i ib (.const len) (mkIR len len) then none
+      else
+        match typeBounds ety with
+        | none => none
+        | some tb => finish fs (.index a len ety i) tb
+
+/-- `proveBinaryOp` at a site where both operands are accepted by `bcheckExpr`
+(always so: `bcheckAssert` checks the condition first); `none`: an operand is not -/
+def proveBinaryOp (fs : List Expr) (op : BOp) (l r : Expr) : Option Bool :=
+  match bcheck fs false l, bcheck fs false r with
+  | some lb, some rb => some (proveCore fs op l lb r rb)
+  | _, _ => none
 
 /-- the nodes of `e` in the order the harness lists them (pre-order; the prefixes of
 associative chains are not nodes) -/
@@ -256,5 +275,6 @@ def nodesPre : Expr → List Expr
   | .as t e => .as t e :: nodesPre e
   | .assoc op pre l r =>
     .assoc op pre l r :: ((if pre then (nodesPre l).tail else nodesPre l) ++ nodesPre r)
+  | .index a len ety i => .index a len ety i :: nodesPre i
 
 end WuffsVerif.WCore
